@@ -3,6 +3,7 @@ import Mouette.Lemmas.TutteLap
 import Mouette.Lemmas.TutteBridge
 import Mouette.Lemmas.TutteResidual
 import Mouette.Lemmas.TutteCircle
+import Mouette.Lemmas.TutteBridge2
 /-!
 # C17 — Tutte's embedding (partial)
 
@@ -184,6 +185,27 @@ theorem circle_boundary_cyclic_order (n i j k : Nat) (hij : i < j) (hjk : j < k)
     0 < ((circlePos n j).1 - (circlePos n i).1) * ((circlePos n k).2 - (circlePos n i).2)
       - ((circlePos n k).1 - (circlePos n i).1) * ((circlePos n j).2 - (circlePos n i).2) :=
   circlePos_ccw hij hjk hk
+
+/-! ## the other translated fragments of tutte.py (round 3) -/
+
+/-- the gate as written in the source (`if euler_characteristic(mesh) != 1: raise`) rejects exactly the surfaces whose
+Euler characteristic is not 1 -/
+theorem gate_source (nV nE nF : Nat) :
+    C17B.rejects ((nV : Int) - (nE : Int) + (nF : Int)) = true ↔ (nV : Int) - (nE : Int) + (nF : Int) ≠ 1 := by
+  rw [bridge_gate, Bool.not_eq_true', ← Bool.not_eq_true, gate_iff]
+
+/-- CIRCLE branch as written in the source: `n` positions, radius 1, real part to U and imaginary part to V, and the
+angle handed to `cmath.rect` is `2·pi·t` with `t` the fraction of a turn of the model (for every value of `pi`) -/
+theorem circle_boundary_source (p : Rat) (n i : Nat) (hi : i < n) :
+    C17B.circleCount n = (circleTurns n).length ∧ C17B.circleRadius = 1 ∧ C17B.circleParts = ("real", "imag") ∧
+    ∃ t, (circleTurns n)[i]? = some t ∧ C17B.circleAngle p n i = 2 * p * t :=
+  ⟨bridge_circleCount n, bridge_circleRadius, bridge_circleParts, bridge_circleAngle p n i hi⟩
+
+/-- CUSTOM branch and border order as written in the source: column 0 is U, column 1 is V; rows follow
+`mesh.boundary_vertices` in custom mode and `extract_border_cycle` otherwise -/
+theorem custom_boundary_source :
+    C17B.customCols = (0, 1) ∧ C17B.bndSource = ("boundary_vertices", "extract_border_cycle") :=
+  ⟨bridge_customCols, bridge_bndSource⟩
 
 /-! ## non-vacuity / samples (tests, not proofs of the general statement) -/
 
